@@ -7,6 +7,7 @@ import (
 	"strings"
 	"sync"
 	"testing"
+	"time"
 
 	"github.com/Comcast/sheens/core"
 	"github.com/Comcast/sheens/match"
@@ -53,6 +54,10 @@ func genShared(t *rapid.T) SharedCase {
 }
 
 func walkObs(spec *core.Spec, node string, bs map[string]interface{}, msgs []interface{}) string {
+	return walkWith(context.Background(), spec, node, bs, msgs)
+}
+
+func walkWith(ctx context.Context, spec *core.Spec, node string, bs map[string]interface{}, msgs []interface{}) string {
 	st := &core.State{NodeName: node, Bs: match.Bindings(jsongen.CopyMap(bs))}
 	ms := make([]interface{}, len(msgs))
 	for i, m := range msgs {
@@ -65,7 +70,7 @@ func walkObs(spec *core.Spec, node string, bs map[string]interface{}, msgs []int
 				fmt.Fprintf(&sb, "panic: %v", x)
 			}
 		}()
-		w, err := spec.Walk(context.Background(), st, ms, &core.Control{Limit: 40}, core.StepProps{"p": map[string]interface{}{"q": 1.0}})
+		w, err := spec.Walk(ctx, st, ms, &core.Control{Limit: 40}, core.StepProps{"p": map[string]interface{}{"q": 1.0}})
 		if err != nil || w == nil {
 			fmt.Fprintf(&sb, "error %v", err)
 			return
@@ -173,6 +178,29 @@ func checkShared(c SharedCase) (v ev.Verdict) {
 					other.Compiled()
 				}
 			}()
+			// ... and other machines are walked by impatient callers whose
+			// contexts end while their walks are under way (their own
+			// results are not judged; what they may leave behind is)
+			for k := 0; k < 2; k++ {
+				cwg.Add(1)
+				go func(k int) {
+					defer cwg.Done()
+					<-start
+					for j := 0; ; j++ {
+						select {
+						case <-stopCompile:
+							return
+						default:
+						}
+						i := (j + k) % n
+						ctx, cancel := context.WithCancel(context.Background())
+						tm := time.AfterFunc(time.Duration((j*37+k*11)%400)*time.Microsecond, cancel)
+						walkWith(ctx, spec, c.Nodes[i], c.States[i], c.Messages[i])
+						tm.Stop()
+						cancel()
+					}
+				}(k)
+			}
 			for i := 0; i < n; i++ {
 				wg.Add(1)
 				go func(i int) {
